@@ -397,8 +397,7 @@ theorem pick_addNotifs {cfg : Config} {ps : List Peer} (hn : (ps.map (·.conn)).
     intro g _
     simp only [Function.comp, addNotif]
     split
-    · have : (q.conn == p.conn) = false := by simp [hq]
-      simp [this, hq]
+    · simp [hq]
     · rfl
 
 theorem pick_addNotifs_none {cfg : Config} {ps : List Peer} {c : Nat} {fid : Json}
